@@ -170,6 +170,18 @@ NEEDS.update({
  "n18": "input: GET /v1/ip with a page so large that page*size wraps to a negative number",
  "n19": "interleaving: a second policy sync reuses the backing array readers are still walking after they released the lock",
 })
+NEEDS.update({
+ "o02": "interleaving + lag: the periodic resync runs between the replacement's filter and its bind while the pod cache does not have the pod yet",
+ "o05": "multi-step: never/immutable allocation, restart or reload (memory rebuilt from the store) - same edit as l03/m02",
+ "o06": "state: a deployment/pool holds reserved IPs in pools with different node subnets, the newest one outside the subnet filter picked; map iteration order",
+ "o11": "input: a pod without owner references (NULL key); its listed entry posted back as listed",
+ "o12": "fault x2: an even number of plugin DELs fail in one DEL, then the retried DEL (same edit as m12)",
+ "o13": "input: a multi-range request whose ranges resolve to different pools (different mask/gateway/VLAN) behind one node subnet",
+ "o14": "multi-step: random-port pod, sandbox re-created (DEL + ADD for the same pod object) - the annotation keeps the first ports; then a daemon restart",
+ "o15": "prior kernel state: GLX-INGRESS and GLX-EGRESS exist but the jumps from the built-in chains are missing",
+ "o16": "input: a rule with a present but empty from/to list (Go-built object)",
+ "o20": "input: a range ending exactly at 255.255.255.255 (Contains wraps)",
+})
 OTHER = {'n03': ['C04'], 'n01': ['C04'], 'n08': ['C06'], 'm06': ['C09'], 'm02': ['C03'], 'l17': ['C14'], 'l08': ['C09'], 'l10': ['C04'], 'l01': ['C04'], 'k20': ['C09'], 'k02': ['C07'], 'k05': ['C09'], 'j08': ['C05'], 'j01': ['C04'], 'b02': ['C03', 'C05'], 'a04': ['C10'], 'd02': ['C06'], 'd09': ['C05', 'C06'], 'e06': ['C08', 'C05'], 'e01': ['C09', 'C05'], 'e10': ['C04'], 'e04': ['C01'], 'f13': ['C12'], 'd01': ['C04'], 'i02': ['C05'], 'i06': ['C09', 'C05'], 'i04': ['C01'], 'g02b': ['C06'], 'g10': ['C04'], 'g19': ['C06'], 'f16a': ['C15'], 'f15b': ['C16']}
 only = sys.argv[1:]
 for sid, (prop, pkg) in SEEDS.items():
